@@ -110,3 +110,9 @@ pub proof fn lemma_quot_setop(b: Box<[RegLan]>, d: Seq<RegLan>, c: u32, w: Seq<u
         }
     }
 }
+
+pub proof fn lemma_cons_assoc(c: u32, u: Seq<u32>, w: Seq<u32>)
+    ensures (u.push(c)) + w == u + (seq![c] + w),
+{
+    assert((u.push(c)) + w =~= u + (seq![c] + w));
+}
